@@ -33,6 +33,19 @@ def one(sid):
         res["detected"] = rc != 0 and bool(lines)
         res["with_failing_input"] = any("no-failing-input-found" not in l for l in lines)
         res["first"] = next((l.strip() for l in o.split("\n") if l.startswith("  ")), "")[:240]
+        res["by"] = pid if res["detected"] else None
+        if not res["detected"]:
+            # the change may break the property only through another one (e.g. a wrong size that corrupts the
+            # container): try the checks that caught it when it was first confirmed
+            for other in [p for p, hit in (meta.get("detected_by") or {}).items() if hit and p != pid]:
+                ev = tempfile.mkdtemp(prefix="seedev_")
+                rc, o = sh("./check %s --tier quick" % other, env=dict(os.environ, VERIF_REPO=wt, VERIF_EVIDENCE=ev), cwd=V)
+                shutil.rmtree(ev, ignore_errors=True)
+                lines = [l for l in o.split("\n") if l.startswith("VIOLATION")]
+                if rc != 0 and lines:
+                    res.update(detected=True, by=other, with_failing_input=any("no-failing-input-found" not in l for l in lines),
+                               first=next((l.strip() for l in o.split("\n") if l.startswith("  ")), "")[:240])
+                    break
     finally:
         sh("git -C /repo worktree remove --force %s" % wt)
         shutil.rmtree(wt, ignore_errors=True)
@@ -44,4 +57,5 @@ head = subprocess.run("git -C /repo rev-parse --short HEAD", shell=True, capture
 json.dump({"repo_head": head, "seeds": out}, open(os.path.join(V, "seeded", "MATRIX.json"), "w"), indent=1)
 for r in out:
     print(r["seed"], r.get("error") or ("confirmed=%s detected=%s input=%s  %s" % (
-        r["demo_clean"] == 0 and r["demo_patched"] != 0 and r["tests_passed"] == 39, r["detected"], r["with_failing_input"], r["first"][:110])))
+        r["demo_clean"] == 0 and r["demo_patched"] != 0 and r["tests_passed"] == 39, r["detected"], r["with_failing_input"],
+        ("[by %s] " % r.get("by") if r.get("by") != r["property"] else "") + r["first"][:110])))
